@@ -231,6 +231,12 @@ class _Missing:
     def __repr__(self):
         return "MISSING"
 
+    def __deepcopy__(self, memo):
+        return self
+
+    def __copy__(self):
+        return self
+
 
 MISSING = _Missing()
 
